@@ -36,6 +36,12 @@ FUN1 = {
     "asinh": (math.asinh, lambda x: 1 / math.sqrt(1 + x * x), "any"),
     "atanh": (math.atanh, lambda x: 1 / (1 - x * x), "unit"),
     "abs": (abs, lambda x: 1.0 if x > 0 else -1.0, "any"),
+    # special function of py-pde's SPECIAL_FUNCTIONS (scipy.special.erf there; libm's erf here, cross-checked
+    # against mpmath by `selfcheck_erf`)
+    "erf": (math.erf, lambda x: 2.0 / math.sqrt(math.pi) * math.exp(-x * x), "small"),
+    # step-like functions: `evalerr` / `ival` treat them separately (jump at the integers)
+    "floor": (lambda x: float(math.floor(x)), lambda x: 0.0, "any"),
+    "ceiling": (lambda x: float(math.ceil(x)), lambda x: 0.0, "any"),
 }
 FUN2 = {
     "hypot": (math.hypot, "any", "any"),
@@ -391,6 +397,19 @@ def evalerr(e, env, ufuncs=None, flags=None):
     except (ValueError, OverflowError, ZeroDivisionError, KeyError, IndexError, TypeError) as ex:
         raise Undefined(f"{type(ex).__name__}: {ex}")
     raise Undefined(f"unknown node {k}")
+
+
+def selfcheck_erf():
+    """libm's erf (reference of the erf leg) against mpmath at 30 digits, |x| <= 6: largest relative deviation"""
+    import mpmath
+
+    worst = 0.0
+    with mpmath.workdps(30):
+        for k in range(-240, 241):
+            x = k / 40.0
+            ref = float(mpmath.erf(mpmath.mpf(x)))
+            worst = max(worst, abs(math.erf(x) - ref) / max(abs(ref), 1e-300) if ref else abs(math.erf(x)))
+    return worst
 
 
 def pyvalue(e, env, ufuncs=None):
